@@ -36,7 +36,8 @@ fn fmt_msg(m: &SyncMessage) -> String {
     }
 }
 
-/// case: serve <nops> { D v s e last k {seq}*k | W v k {rowid}*k | E lo hi | A v | C } <nneeds> { NF s e | NP v k {s e}*k }
+/// case: serve <nops> { D v s e last k {seq}*k | W v k {rowid}*k | E lo hi | A v | O v k {rowid}*k }
+///   (O: a complete version v of ANOTHER actor; needs are always about actor 5) <nneeds> { NF s e | NP v k {s e}*k }
 pub fn serve(t: &mut Toks) -> String {
     let rt = tokio::runtime::Builder::new_multi_thread().worker_threads(3).enable_all().build().unwrap();
     let nops = t.usize();
@@ -45,6 +46,7 @@ pub fn serve(t: &mut Toks) -> String {
         W(u64, Vec<u64>),
         E(u64, u64),
         A(u64),
+        O(u64, Vec<u64>),
     }
     let mut ops = vec![];
     for _ in 0..nops {
@@ -64,6 +66,11 @@ pub fn serve(t: &mut Toks) -> String {
             }
             "E" => Op::E(t.u64(), t.u64()),
             "A" => Op::A(t.u64()),
+            "O" => {
+                let v = t.u64();
+                let k = t.usize();
+                Op::O(v, (0..k).map(|_| t.u64()).collect())
+            }
             x => panic!("bad op {x}"),
         });
     }
@@ -119,6 +126,18 @@ pub fn serve(t: &mut Toks) -> String {
                 }
                 Op::A(v) => {
                     let _ = process_fully_buffered_changes(&agent, &bookie, actor, CrsqlDbVersion(v), tmo).await;
+                }
+                Op::O(v, ids) => {
+                    // a complete version with the SAME number authored by another actor (versions are per actor)
+                    let other = actor_of(6);
+                    let n = ids.len() as u64;
+                    let changes: Vec<_> = ids
+                        .iter()
+                        .enumerate()
+                        .map(|(i, id)| agentkit::mk_change(other, v, i as u64, (2000 + id) as i64, "o", 1, 1))
+                        .collect();
+                    let c = agentkit::full(other, v, changes, 0, n.saturating_sub(1), n.saturating_sub(1), 1);
+                    let _ = process_multiple_changes(agent.clone(), bookie.clone(), vec![(c, ChangeSource::Sync, Instant::now())], tmo).await;
                 }
             }
         }
